@@ -18,7 +18,7 @@ cost         = `<stripe n.h.w.c>~<stripe_input n.h.w.c>~<wb>.<wb>…~<cascade>`;
 `tusage ct=<n> L=<start>:<stop>:<size>:<inArea>,…` → `ok peak=<int> u=<int>/<int>/…`
 `ffast <cascade> <nDependants> <outsideConsumer> <varWrite>` → `0|1`
 `fast ct=<n> limit=<int> L=<start>:<end>:<size>:<inArea>:<scratched>:<score>,…`
-   → `ok entered=<0|1> evicted=<id>/… kept=<id>/… fms=<id>/… max=<int>/… fixed=<int>/…`
+   → `ok wf=<0|1> entered=<0|1> evicted=<id>/… kept=<id>/… fms=<id>/… max=<int>/… fixed=<int>/…`  (`wf`: the hypotheses of `fast_storage_total`)
 `opbuf t=<n> limit=<int> ev=<n> S=<int>/…` → `<slack> <bufferLimit>`
 `wbuf limit=<int> len=<n> db0=<n> db1=<n> ns=<n> casc=<n> prev=<int>` → `none` | `ok b=<n>/<n> dbl=<0|1> pre=<0|1> used=<n>`
 
@@ -182,7 +182,8 @@ def handleFast (toks : List String) : Option String := do
   match useFastStorage lrs ct limit with
   | .error e => some e.str
   | .ok r =>
-    some s!"ok entered={boolStr r.entered} evicted={natsStr r.st.evicted} kept={natsStr r.st.kept} fms={natsStr r.st.evictedFms} max={intsStr r.st.maxU} fixed={intsStr r.fixed}"
+    let wf := lrs.all (fun lr => decide (lr.end_ ≤ ct + 2) && (!lr.scratched || (decide (lr.start ≤ lr.end_ ∧ lr.end_ < ct + 2) && lr.inArea)))
+    some s!"ok wf={boolStr wf} entered={boolStr r.entered} evicted={natsStr r.st.evicted} kept={natsStr r.st.kept} fms={natsStr r.st.evictedFms} max={intsStr r.st.maxU} fixed={intsStr r.fixed}"
 
 def handleSmfast (toks : List String) : Option String := do
   let limit ← parseInt? (← kv toks "limit")
